@@ -371,7 +371,7 @@ func (p *pool) report() {
 	for i := range p.cases {
 		c := &p.cases[i]
 		fam := c.Family
-		if c.Family != "config-matrix" && c.Family != "nil-arguments" && c.Family != "crl-der-byte-mutation" {
+		if c.Family != "config-matrix" && c.Family != "nil-arguments" && c.Family != "crl-der-byte-mutation" && c.Family != "reader-seam" {
 			fam += ":" + c.Kind
 		}
 		s := stats[fam]
@@ -461,6 +461,8 @@ func main() {
 		"'arbitrary input' is read as: the complete configuration matrix plus every input at byte distance 1 (values ^1, ^0x80, =0, every truncation) or JSON-node distance 1 (7 replacement values, numeric extremes on numbers, duplicate / case-variant member names) from a valid input; inputs at distance >= 2 are outside",
 		"clause 2 (error after statement selection => outcome with Error) is judged on verifier.Verify and verifier.VerifyBlob; notation.VerifyBlob documents that it returns only the successful outcome and notation.Verify's outcome slice on failure is not fixed: their failure side is recorded, not judged; selection failures are recognised by ErrorNoApplicableTrustPolicy and the two nil-document errors",
 		"allocation ceiling: runtime.MemStats.TotalAlloc delta of one call <= 256 MiB for inputs <= 64 KiB, measured in single-threaded workers; a worker killed by the runtime for memory (RLIMIT_AS 8 GiB) counts as runaway allocation",
+		"matrix: extended attribute (none / string / COSE integer label, critical or not) x presented artifact (signed / another one) x UserMetadata (none / satisfied / unsatisfied) are crossed with every other dimension under the digest reference for the signatures that parse (jws, cose); quick crosses them with one revocation option, thorough with all three; the other signature kinds and references keep the default of these three",
+		"one verifier instance per configuration and worker serves all cells dealt to that worker (calls after other calls on the same instance); reader-seam: notation.VerifyBlob must give the verdict of a plain reader however the caller's reader delivers the same bytes, and must not accept when the reader fails after half of the blob",
 		"the signature envelopes carry no RFC 3161 timestamp; COSE envelopes get the byte neighbourhood only",
 		"a static plugin cannot produce a valid raw signature (the signed bytes contain the signing time): generate-signature outputs are exercised up to the library's own verification of the result",
 	}
@@ -469,7 +471,7 @@ func main() {
 	if r.Thorough() {
 		r.SetDeadline(10 * time.Minute)
 	} else {
-		r.SetDeadline(40 * time.Second)
+		r.SetDeadline(35 * time.Second)
 	}
 	if r.Replay != "" {
 		var rc replayCase
@@ -483,7 +485,8 @@ func main() {
 		w, created := loadOrBuildWorld()
 		r.Extra["fixture_created"] = created.UTC().Format(time.RFC3339)
 		p.fx = &w.Fixture
-		cases = append(cases, matrixCases()...)
+		cases = append(cases, matrixCases(r.Thorough())...)
+		cases = append(cases, readerCases()...)
 		for _, l := range nilArgCases {
 			cases = append(cases, Case{Family: "nil-arguments", Kind: "api", Label: l, Class: l})
 		}
@@ -493,7 +496,8 @@ func main() {
 		cases = append(cases, layoutCases(w, r.Thorough())...)
 		cases = append(cases, pluginCases(w, r.Thorough())...)
 		r.Extra["matrix_dimensions"] = map[string]any{"construction": constructions, "plugin_manager": managers, "revocation": revocations, "level": levels, "placement": placements,
-			"entry": append(append([]string{}, ociEntries...), blobEntries...), "signature": append(append([]string{}, envelopeSigs...), bareSigs...), "plugin_demanded": []bool{false, true}, "reference": references}
+			"entry": append(append([]string{}, ociEntries...), blobEntries...), "signature": append(append([]string{}, envelopeSigs...), bareSigs...), "plugin_demanded": []bool{false, true}, "reference": references,
+			"crossed under the digest reference for jws/cose": map[string]any{"extended_attribute": attrKinds, "artifact": artifacts, "user_metadata": metadatas}}
 		r.Extra["envelope_bytes"] = map[string]int{"jws": len(w.Bases["jws"]), "cose": len(w.Bases["cose"])}
 		var rn []string
 		for _, x := range append(append([]repl{}, replacements...), numberExtremes...) {
